@@ -472,7 +472,9 @@ fn run_encoder(case: &Case, attempts: NonZeroUsize) -> Result<(), String> {
     // (mid-size counts: no byte is held back, so that nothing but the bytes read lands in their chunk)
     let prefix: &[u8] = if (65..=300).contains(&case.count) { &[0x61, 0x62] } else { &[0x61, 0xFE] };
     let suffix: &[u8] = &[0xFD, 0x62];
-    let src = source(case.count);
+    // (mid-size counts read stuff-free bytes: a stuff sequence inside the read would put a chunk header,
+    // an anchored allocation, into the same arena chunk as the bytes read)
+    let src = if (65..=300).contains(&case.count) { &source(case.count)[1000..] } else { source(case.count) };
     let mut enc = Encoder::new();
     enc.encode_copy(prefix);
     {
